@@ -1,6 +1,6 @@
 (* M2 - an exact (float-free) instance of the scalar oracles (definitions only): decimal
    arithmetic in Z. It agrees with the Go functions wherever binary64 rounding does not
-   interfere (e.g. on the F4 witnesses) and is the satisfiability witness of the envelope
+   interfere and is the satisfiability witness of the envelope
    [oracle_ok] (Proofs/PlaylistIdeal.v); the tie uses Model/PlaylistOracle.go_oracles. *)
 From Coq Require Import List ZArith Bool String Ascii.
 From GoHls Require Import Model.PlaylistBase.
